@@ -127,8 +127,30 @@ mod worker {
             Ok(code) => {
                 // the expansion must at least be syntactically valid Rust
                 if !code.contains("compile_error") {
-                    if let Err(e) = syn::parse_str::<syn::File>(&code) {
-                        return json!({"status": "unparsable_output", "msg": format!("expansion is not valid Rust syntax: {}", e)});
+                    match syn::parse_str::<syn::File>(&code) {
+                        Err(e) => {
+                            return json!({"status": "unparsable_output", "msg": format!("expansion is not valid Rust syntax: {}", e)});
+                        }
+                        Ok(file) => {
+                            // items of one namespace must have distinct names (rustc E0428)
+                            let mut values = std::collections::HashSet::new();
+                            let mut types = std::collections::HashSet::new();
+                            for item in &file.items {
+                                let (ns, name) = match item {
+                                    syn::Item::Fn(f) => (0, f.sig.ident.to_string()),
+                                    syn::Item::Static(s) => (0, s.ident.to_string()),
+                                    syn::Item::Const(c) => (0, c.ident.to_string()),
+                                    syn::Item::Struct(s) => (1, s.ident.to_string()),
+                                    syn::Item::Enum(e) => (1, e.ident.to_string()),
+                                    syn::Item::Type(t) => (1, t.ident.to_string()),
+                                    _ => continue,
+                                };
+                                let fresh = if ns == 0 { values.insert(name.clone()) } else { types.insert(name.clone()) };
+                                if !fresh {
+                                    return json!({"status": "unparsable_output", "msg": format!("expansion defines the item `{}` twice (E0428)", name)});
+                                }
+                            }
+                        }
                     }
                 }
                 if code.contains("compile_error") {
